@@ -899,29 +899,32 @@ def hex06 (n : Nat) : Str :=
 
 def isValidScalar (n : Nat) : Bool := n < 0xD800 || (0xE000 ≤ n && n ≤ 0x10FFFF)
 
-/-- `finish_numeric`; result: (machine with possible error, char or panic) -/
-def finishNumeric (o : Opts) (m : Mach) (cr : CharRefSt) : Mach × Except String Char :=
+def numericErr (o : Opts) (m : Mach) (n : Nat) : Mach :=
+  if o.exactErrors then
+    emit m (.error ("Invalid numeric character reference value 0x".toList ++ hex06 n))
+  else emitErr m "Invalid numeric character reference"
+
+/-- the value part of `finish_numeric`: (char or panic, is it a parse error) -/
+def numericValue (cr : CharRefSt) : Except String Char × Bool :=
   let n := cr.num
   let conv (n : Nat) : Except String Char :=
     if isValidScalar n then .ok (Char.ofNat n) else .error "invalid char missed by error handling cases"
-  let (c, err) : Except String Char × Bool :=
-    if n > 0x10FFFF || cr.numTooBig then (.ok '�', true)
-    else if n = 0 || (0xD800 ≤ n && n ≤ 0xDFFF) then (.ok '�', true)
-    else if 0x80 ≤ n && n ≤ 0x9F then
-      match Gen.C1.table[n - 0x80]? with
-      | some (some r) => (conv r, true)
-      | some none => (conv n, true)
-      | none => (.error "C1_REPLACEMENTS index out of bounds", true)
-    else if (0x01 ≤ n && n ≤ 0x08) || n = 0x0B || (0x0D ≤ n && n ≤ 0x1F) || n = 0x7F
-        || (0xFDD0 ≤ n && n ≤ 0xFDEF) then (conv n, true)
-    else if (n &&& 0xFFFE) = 0xFFFE then (conv n, true)
-    else (conv n, false)
-  let m := if err then
-      (if o.exactErrors then
-        emit m (.error ("Invalid numeric character reference value 0x".toList ++ hex06 n))
-       else emitErr m "Invalid numeric character reference")
-    else m
-  (m, c)
+  if n > 0x10FFFF || cr.numTooBig then (.ok '�', true)
+  else if n = 0 || (0xD800 ≤ n && n ≤ 0xDFFF) then (.ok '�', true)
+  else if 0x80 ≤ n && n ≤ 0x9F then
+    match Gen.C1.table[n - 0x80]? with
+    | some (some r) => (conv r, true)
+    | some none => (conv n, true)
+    | none => (.error "C1_REPLACEMENTS index out of bounds", true)
+  else if (0x01 ≤ n && n ≤ 0x08) || n = 0x0B || (0x0D ≤ n && n ≤ 0x1F) || n = 0x7F
+      || (0xFDD0 ≤ n && n ≤ 0xFDEF) then (conv n, true)
+  else if (n &&& 0xFFFE) = 0xFFFE then (conv n, true)
+  else (conv n, false)
+
+/-- `finish_numeric`; result: (machine with possible error, char or panic) -/
+def finishNumeric (o : Opts) (m : Mach) (cr : CharRefSt) : Mach × Except String Char :=
+  let v := numericValue cr
+  (if v.2 then numericErr o m cr.num else m, v.1)
 
 def nameErr (o : Opts) (m : Mach) (nameBuf : Str) : Mach :=
   if o.exactErrors then emit m (.error ("Invalid character reference &".toList ++ nameBuf))
